@@ -227,10 +227,23 @@ def line_count(w, b):
 
 def impl(op, a):
     if op == 303:
+        import copy
         p = S.SeqCountProvider(a[0][0])
         out = [[p.count, p.max_bit_width]]
         flip = 0
-        for o in a[1:]:
+        # a provider that is copied half-way (copy.copy / copy.deepcopy) is an independent provider in the
+        # same state: mode 2 goes on with the copy, mode 3 goes on with the original and examines the copy last
+        mode = (len(a) * 7 + a[0][0]) % 4 if len(a) >= 3 else 0
+        fork_at = (len(a) - 1) // 2
+        frozen = snap = None
+        for i, o in enumerate(a[1:]):
+            if i == fork_at and mode in (2, 3):
+                snap = [p.count, p.max_bit_width]
+                g = copy.copy(p) if a[0][0] % 2 == 0 else copy.deepcopy(p)
+                if mode == 2:
+                    frozen, p = p, g
+                else:
+                    frozen = g
             k = o[0]
             if k == 1:
                 flip ^= 1
@@ -244,6 +257,15 @@ def impl(op, a):
             else:
                 raise RuntimeError("bad history op")
             out += [r, [p.count, p.max_bit_width]]
+        if frozen is not None:
+            ok = [frozen.count, frozen.max_bit_width] == snap
+            if ok and snap[1] >= 0:
+                top = 2 ** snap[1]
+                frozen.count = max(top - 2, 0)
+                got = [next(frozen) for _ in range(4)]
+                ok = got == [(max(top - 2, 0) + j) % top for j in range(4)]
+            if not ok:
+                out[-1] = [-1, -1]
         return out
     if op == 304:
         w, pus, w2 = a[0][0], len(a[0]) > 1 and a[0][1] == 1 and a[0][0] == 14, a[0][2]
@@ -583,6 +605,10 @@ def _oracle_mem(a, ires):
     [0, 2^w - 1] (count attribute, or narrowing below the running count) is not judged for that call."""
     w, c = a[0][0], 0
     n_ops = len(a) - 1
+    if ires[-1] == [-1, -1]:
+        return ("C19/SeqCountProvider.copy/diverged", "a provider copied (copy.copy / copy.deepcopy) half-way through the history "
+                "does not behave like an independent provider in the same state: either it changed while the other one was used, "
+                "or it no longer wraps at 2^(its own width)")
     if len(ires) != 2 + 2 * n_ops:
         return ("C19/adapter/history-shape", "%d lines for %d ops" % (len(ires), n_ops))
     if ires[1] != [0, w]:
